@@ -53,7 +53,9 @@ func NewExpression(node ast.Node) (Expression, error) {
 
 func (se *expression) CopyReset() Expression {
 	return &expression{
-		nodeEvaluator:  se.nodeEvaluator,
+		// The copy shares the node evaluators (and their specialisation) with se, except those
+		// that own function state: a nested lambda gets a node and a state of its own.
+		nodeEvaluator:  copyResetNodeEvaluator(se.nodeEvaluator),
 		executionState: CreateExecutionState(),
 	}
 }
